@@ -29,10 +29,13 @@ for l in t:
 open("lean/PPModel.lean", "w").write("\n".join(o) + "\n")
 # known_findings.json: union by (property, signature)
 ko, kt = json.loads(show("HEAD", "known_findings.json")), json.loads(show(br, "known_findings.json") or '{"findings":[]}')
-keys = {(e["property"], e["signature"]) for e in ko["findings"]}
-for e in kt["findings"]:
-    if (e["property"], e["signature"]) not in keys:
-        ko["findings"].append(e)
+# entries of the properties the branch owns (b-c10 owns C10 and C11, ...) are taken from the branch
+owned = {"b-c10": ["C10", "C11"]}.get(br, ["C" + br.split("-c")[-1]])
+keep = [e for e in ko["findings"] if e["property"] not in owned or (e["property"], e["signature"]) not in
+        {(x["property"], x["signature"]) for x in kt["findings"]} and e.get("status") == "fixed"]
+keys = {(e["property"], e["signature"]) for e in keep}
+ko["findings"] = keep + [e for e in kt["findings"] if (e["property"], e["signature"]) not in keys and
+                         (e["property"] in owned or (e["property"], e["signature"]) not in keys)]
 json.dump(ko, open("known_findings.json", "w"), indent=1)
 open("known_findings.json", "a").write("\n")
 sh("git", "add", "lean/Main.lean", "lean/PPModel.lean", "known_findings.json")
